@@ -345,7 +345,7 @@ pub fn engine_batches(prop: &'static str, tier: &str, seed: u64) -> Vec<Batch<'s
     let fl = flavor_for(prop);
     let (n_plain, n_benign) = match (prop, tier) {
         ("C01", "quick") => (25_000u64, 10_000u64),
-        ("C05", "quick") => (22_000u64, 8_000u64),
+        ("C05", "quick") => (18_000u64, 6_000u64),
         (_, "quick") => (40_000u64, 15_000u64),
         _ => (600_000, 200_000),
     };
@@ -375,6 +375,16 @@ pub fn engine_batches(prop: &'static str, tier: &str, seed: u64) -> Vec<Batch<'s
         let n6 = n_benign / 2;
         out.push(Batch { name: "C05-transient-storage-error-then-retry(stats() against the table after every later call)".into(), runs: n6, f: Box::new(move |i| engine_outcome(crate::rng::run_seed(seed, 6, i), &f6)) });
     }
+    if prop == "C05" {
+        // every fault position of remove(), each followed by the same call again: stats() against the table, and the
+        // chain comes back whenever the failed call had not changed the table yet
+        let n7 = if tier == "quick" { 300u64 } else { 12_000 };
+        out.push(Batch {
+            name: "C05-single-fault-enumeration-of-remove(every device call fails in turn, then the call is repeated)".into(),
+            runs: n7,
+            f: Box::new(move |i| crate::c09::scenario_for(crate::rng::run_seed(seed, 7, i), false, 400, "C05", Oracles { free_count: true, fault_resilient: true, ..Default::default() }, Some(|op| matches!(op, Op::Remove { .. })), true)),
+        });
+    }
     if prop == "C12" {
         // a transient storage error inside a mutating call, the caller tries again: the status-byte rules need no model
         // and stay in force for the rest of the run
@@ -392,7 +402,7 @@ pub fn engine_batches(prop: &'static str, tier: &str, seed: u64) -> Vec<Batch<'s
         out.push(Batch {
             name: "C03-single-fault-enumeration(every device call of mutating operations fails in turn; relaxed structural check after the failed call)".into(),
             runs: n5,
-            f: Box::new(move |i| crate::c09::scenario_for(crate::rng::run_seed(seed, 5, i), false, 80, "C03", Oracles { fsck: true, ..Default::default() }, true)),
+            f: Box::new(move |i| crate::c09::scenario_for(crate::rng::run_seed(seed, 5, i), false, 80, "C03", Oracles { fsck: true, ..Default::default() }, Some(crate::c14::is_mutating), false)),
         });
     }
     if !matches!(prop, "C13") {
